@@ -99,41 +99,41 @@ def showParams (p : Profile) (sp : StreamParams) : String :=
   s!"ok:{sp.leaderSize},{sp.trailerSize},{sp.payloadSize},{sp.payloadCount},{sp.payloadFinal1Size},{sp.payloadFinal2Size},{sp.timeoutMs},max={mx}"
 
 /-- run the ops; returns the answer tokens (reversed) and the final state -/
-def runOps (p : Profile) : List Op → St → List String → List String × St
-  | [], st, acc => (acc, st)
-  | op :: ops, st, acc =>
+def runOps (p : Profile) : List Op → StreamHandle → St → List String → List String × St
+  | [], _, st, acc => (acc, st)
+  | op :: ops, sh, st, acc =>
     match op.poke with
     | some (a, d) =>
       -- device-side change: no host access, no log entry
       if st.dev.mem.rangeMapped a d.length then
-        runOps p ops { st with dev := { st.dev with mem := st.dev.mem.write a d } } ("M=ok" :: acc)
-      else runOps p ops st ("M=unmapped" :: acc)
+        runOps p ops sh { st with dev := { st.dev with mem := st.dev.mem.write a d } } ("M=ok" :: acc)
+      else runOps p ops sh st ("M=unmapped" :: acc)
     | none =>
     let st := { st with dev := { st.dev with log := [], faults := schedule op.fault } }
-    let (res, st', isPanic) : String × St × Bool :=
+    let (res, sh', st', isPanic) : String × StreamHandle × St × Bool :=
       if op.kind == 'e' then
         let (r, st') := enableStreaming p st
-        (showR (fun _ => "ok") r, st', r.isPanic)
+        (showR (fun _ => "ok") r, sh, st', r.isPanic)
       else if op.kind == 'd' then
         let (r, st') := disableStreaming st
-        (showR (fun _ => "ok") r, st', r.isPanic)
+        (showR (fun _ => "ok") r, sh, st', r.isPanic)
       else if op.kind == 's' then
         -- the public `ControlHandle::sbrm()` (fills the SBRM cache only)
         let (r, st') := getSbrm st
-        (showR (fun _ => "ok") r, st', r.isPanic)
+        (showR (fun _ => "ok") r, sh, st', r.isPanic)
       else if op.kind == 'l' then
-        -- `StreamHandle::start_streaming_loop`: the parameters of the receive loop are
-        -- `StreamParams::from_control` of the device as it is now, on every start
-        let (r, st') := fromControl st
+        -- `StreamHandle::start_streaming_loop` on the case's one stream handle; reported are the
+        -- handle's `params()` afterwards and the transfers of one frame of the loop
+        let (r, sh1, st') := startStreamingLoop sh st
         (match r with
-          | .ok sp => showParams p sp ++ ",frame=" ++ frameDigest sp
+          | .ok sp => showParams p sh1.params ++ ",frame=" ++ frameDigest sp
           | .err _ => "err:Stream"
-          | .panic => "panic", st', r.isPanic)
+          | .panic => "panic", stopStreamingLoop sh1, st', r.isPanic)
       else
         let (r, st') := fromControl st
-        (showR (showParams p) r, st', r.isPanic)
+        (showR (showParams p) r, sh, st', r.isPanic)
     let tok := s!"{op.kind}={res}{showLog st'.dev.log}"
-    if isPanic then (tok :: acc, st') else runOps p ops st' (tok :: acc)
+    if isPanic then (tok :: acc, st') else runOps p ops sh' st' (tok :: acc)
 
 def parseRegions : Nat → List String → Option (List (Nat × Array UInt8) × List String)
   | 0, rest => some ([], rest)
@@ -153,7 +153,7 @@ def handle : List String → String
         match opToks.mapM parseOp with
         | some ops =>
           let st : St := ⟨⟨memOfRegions rs, [], []⟩, none, none⟩
-          let (toks, st') := runOps p ops st []
+          let (toks, st') := runOps p ops StreamHandle.new st []
           let img := "|".intercalate (rs.map fun r => bytesToHex (st'.dev.mem.read r.1 r.2.size))
           joinSp (toks.reverse ++ [s!"img={img}"])
         | none => "bad-op"
